@@ -799,8 +799,67 @@ impl Campaign for C15 {
         out
     }
 
+    fn seeded(&self) -> Vec<Sc15> {
+        // the bounded-exhaustive corner the property names: every sequence of up to 4 operations over a
+        // reduced alphabet (one operation per table / stack), for initial sizes 0, 1, 2 and every growth
+        // policy that can make progress (additive 1 or 2; multiplicative 2 from a non-zero size), the same
+        // setting on all six blocks; full read-back after every operation
+        let alphabet: Vec<Op> = vec![
+            Op::PushInstruction(1, None),
+            Op::PushJump(7),
+            Op::ParseSymbol("sx".into()),
+            Op::AddInt(41),
+            Op::ParseText("ab".into()),
+            Op::MakeList(vec![0, 1], true),
+            Op::PushRegister(0),
+            Op::PushValue(0),
+            Op::PushFrame(3),
+            Op::PushCustom,
+            Op::PushExprSymbol(77, 1),
+        ];
+        let mut configs = vec![];
+        for init in [0usize, 1, 2] {
+            for strat in [Strat::Fixed(1), Strat::Fixed(2), Strat::Mult(2)] {
+                if matches!(strat, Strat::Mult(_)) && init == 0 {
+                    continue;
+                }
+                let b = BlockKnob { init, max: usize::MAX, strat };
+                configs.push(Knobs { instr: b, jump: b, symtab: b, exprsym: b, data: b, custom: b });
+            }
+        }
+        let n = alphabet.len();
+        let mut out = vec![];
+        for len in 1..=4usize {
+            let total = n.pow(len as u32);
+            for code in 0..total {
+                let mut c = code;
+                let mut ops = vec![];
+                for _ in 0..len {
+                    ops.push(alphabet[c % n].clone());
+                    c /= n;
+                }
+                // symbols must be distinct names to be distinct table entries
+                let mut k = 0;
+                for op in ops.iter_mut() {
+                    if let Op::ParseSymbol(s) = op {
+                        *s = format!("sx{}", k);
+                        k += 1;
+                    }
+                    if let Op::PushExprSymbol(sym, _) = op {
+                        *sym += k as u64;
+                        k += 1;
+                    }
+                }
+                for knobs in &configs {
+                    out.push(Sc15 { basic: true, knobs: *knobs, ops: ops.clone(), check_every: true });
+                }
+            }
+        }
+        out
+    }
+
     fn rule(&self) -> String {
-        "one run = a seeded history of 3..400 data-interface operations (every add_*, parse_add_*, list construction keyed and unkeyed, symbol-list merge, operand / `$` / frame stack pushes and pops, current-value writes, instruction pushes, jump pushes and patches, Basic's custom and expression-symbol tables) applied to the real store and to an abstract model of independent growable tables; on BasicGarnishData each of the six blocks gets its own initial size in {0,1,2,3,10} and growth policy FixedSize{1,2,3,7,10} or Multiplicative{2,3} (only with a non-zero size), and a quarter of runs also a capacity limit so that some operation is refused. After every operation (all addresses for short histories, a rotating sample for long ones) and at the end every address ever returned is read back (type, content, iterators, keyed lookup), as are all tables and stacks. distinct = distinct scenario hash; non-trivial = at least three operations took effect".to_string()
+        "explicit scenarios (every invocation): every sequence of 1..4 operations over an 11-operation alphabet (one per table / stack) x 8 uniform block settings (initial size 0,1,2 x additive 1, additive 2, multiplicative 2 from a non-zero size) on BasicGarnishData, full read-back after every operation. Seeded: one run = a seeded history of 3..400 data-interface operations (every add_*, parse_add_*, list construction keyed and unkeyed, symbol-list merge, operand / `$` / frame stack pushes and pops, current-value writes, instruction pushes, jump pushes and patches, Basic's custom and expression-symbol tables) applied to the real store and to an abstract model of independent growable tables; on BasicGarnishData each of the six blocks gets its own initial size in {0,1,2,3,10} and growth policy FixedSize{1,2,3,7,10} or Multiplicative{2,3} (only with a non-zero size), and a quarter of runs also a capacity limit so that some operation is refused. After every operation (all addresses for short histories, a rotating sample for long ones) and at the end every address ever returned is read back (type, content, iterators, keyed lookup), as are all tables and stacks. distinct = distinct scenario hash; non-trivial = at least three operations took effect".to_string()
     }
 
     fn components(&self) -> Value {
